@@ -24,10 +24,10 @@ CHECKS = {
     "C06": (EXPL, "reference-model monitor: independent word splitter vs normal form of the returned Call", "4/C06",
             "Command lines are constructed from known pieces so the expected split is known by construction.",
             "trusted: the model of section 4/C06; normal-form flattening of gluing nodes"),
-    "C07": (EXPL, "ground truth by construction for macro argument/body text + shift check of following statements", "4/C07",
+    "C07": (EXPL, "ground truth by construction for macro argument/body text (values and the text between their coordinates) + shift check of following statements", "4/C07",
             "Inputs are assembled from known argument texts/block lines; the constants in the returned nodes must equal them.",
             "trusted: the generator's own bracket/string-aware splitter (cross-checked against construction)"),
-    "C08": (EXPL, "lossless-tiling monitor over token streams of hostile and real inputs", "4/C08",
+    "C08": (EXPL, "lossless-tiling monitor and line-structure monitor (NEWLINE/bracket/ENDMARKER placement) over token streams of hostile and real inputs", "4/C08",
             "Pure function of token list and text; run on every input the tokenizer finishes on.",
             "trusted: the tiling checker"),
     "C09": (EXPL, "differential token-stream oracle (CPython tokenize) over corpus and literal/operator/indent product", "4/C09",
@@ -36,13 +36,13 @@ CHECKS = {
     "C10": (EXPL, "differential tokens+trees for f-strings against CPython 3.12 with per-mechanism finding attribution", "4/C10",
             "Product of prefixes/quotes/literal parts/fields/specs/nesting plus every f-string of the corpus.",
             "trusted: CPython 3.12.1 tokenizer/parser"),
-    "C11": (EXPL, "well-formedness predicate monitor on every raised SyntaxError", "4/C11",
+    "C11": (EXPL, "well-formedness predicate monitor on every raised SyntaxError + reference-free rename relation (positions are character columns)", "4/C11",
             "Predicate is a pure function of exception attributes and input; run on all rejected inputs of the hostile generators.",
             "trusted: the predicate; line splitting as the tokenizer's readline does"),
-    "C12": (EXPL, "relational monitor file-vs-string in child interpreters under several locale/UTF-8-mode environments + open() spy", "4/C12",
+    "C12": (EXPL, "relational monitor file-vs-string (regular file, rewritten path, named pipe) in child interpreters under several locale/UTF-8-mode environments + open() spy", "4/C12",
             "Latin-1 locale does not exist in the image; covered only through the encoding recorded by the spy.",
             "trusted: child interpreter environment set-up; the spy sees the file object handed to the code"),
-    "C13": (EXPL, "history/thread-schedule monitor against fresh-process reference signatures; aliasing and quiescence invariants at hooks", "4/C13",
+    "C13": (EXPL, "history/thread-schedule monitor against fresh-process reference signatures, fresh interpreters under other string-hash seeds; aliasing and quiescence invariants at hooks", "4/C13",
             "Schedules are stressed (switch interval, yield injection via sys.monitoring LINE events), not enumerated.",
             "trusted: fresh-process references; GIL switch stress reaches the interleavings that matter"),
     "C14": (EXPL, "whole-vs-parts relational oracle over statement sequences", "4/C14",
@@ -57,7 +57,7 @@ CHECKS = {
     "C17": ("translation_validation", "generated parser vs independent PEG interpreter on random well-formed grammars x token strings", "4/C17",
             "Per grammar: generated module run on all short token strings + derived strings, compared with reference semantics.",
             "trusted: the reference interpreter (written from the PEG definition, cross-checked by a left-fold oracle)"),
-    "C18": (EXPL, "operation-count monitor (counting Tokenizer subclass) + doubling-ratio oracle over size-parameterised families", "4/C18",
+    "C18": (EXPL, "operation-count monitor (counting Tokenizer subclass), CPU-time monitor and file-read monitor + doubling-ratio oracle over size-parameterised families", "4/C18",
             "Scale-free ratio test on token-source operations; logical clock recorded as second measure.",
             "trusted: counting subclass passed through the public constructor"),
 }
